@@ -180,8 +180,8 @@ class PLBVFU1Model(Model):
                           indexer=self.bus,
                           tex_name=r'\theta',
                           info='Bus voltage phase angle',
-                          e_str='Vflt*v*xs*sin(a - delta)/(ra*ra + xs*xs) + '
-                                'ra*v*(-Vflt*cos(a - delta) + v)/(ra*ra + xs*xs)',
+                          e_str='u * (Vflt*v*xs*sin(a - delta)/(ra*ra + xs*xs) + '
+                                'ra*v*(-Vflt*cos(a - delta) + v)/(ra*ra + xs*xs))',
                           ename='P',
                           tex_ename='P',
                           )
@@ -191,8 +191,8 @@ class PLBVFU1Model(Model):
                           tex_name=r'V',
                           info='Bus voltage magnitude',
                           ename='Q',
-                          e_str='-Vflt*ra*v*sin(a - delta)/(ra*ra + xs*xs) + '
-                                'v*xs*(-Vflt*cos(a - delta) + v)/(ra*ra + xs*xs)',
+                          e_str='u * (-Vflt*ra*v*sin(a - delta)/(ra*ra + xs*xs) + '
+                                'v*xs*(-Vflt*cos(a - delta) + v)/(ra*ra + xs*xs))',
                           tex_ename='Q',
                           )
 
